@@ -2,7 +2,7 @@
    (all closed by computation on the model). *)
 Require Import ZArith List Bool Lia.
 Import ListNotations.
-Require Import AV.Gen.StoreParams AV.Store.Gc AV.Store.Model AV.Store.Facts AV.Store.Steps AV.Store.GcStore.
+Require Import AV.Gen.StoreParams AV.Store.Gc AV.Store.Model AV.Store.Facts AV.Store.Steps AV.Store.GcStore AV.Store.MarkFacts AV.Store.Final.
 Local Open Scope Z_scope.
 
 (* a history with fixed and mixed blocks, a split, merges with both neighbours,
@@ -48,3 +48,10 @@ Proof. vm_compute. reflexivity. Qed.
 Example ex_interior_resolves :
   resolve (run_ops (firstn 11 ex_hist)) (3 * 4096 + 300) = Some (2%nat, 288).
 Proof. vm_compute. reflexivity. Qed.
+
+(* the concrete marker on the same history: stepping back over follow-quanta *)
+Example ex_cresolve_interior :
+  cresolve (run_ops (firstn 11 ex_hist)) (3 * 4096 + 300) = Some (2%nat, 288) /\
+  cresolve (run_ops (firstn 11 ex_hist)) (3 * 4096 + 1600 + 10) = Some (2%nat, 1568) /\
+  cgc_mark (run_ops (firstn 11 ex_hist)) [3 * 4096 + 300] = [(2%nat, 1568); (2%nat, 288)].
+Proof. vm_compute. repeat split; reflexivity. Qed.
